@@ -1,6 +1,6 @@
 (* C04 - Emitted assembly is closed: labels unique, references resolved, no run-off. *)
 From Coq Require Import List ZArith Bool.
-From Pory Require Import Lexer Ast Emitter EmitProps Worklist WorkRefs.
+From Pory Require Import Lexer Ast Emitter EmitProps LabelSim Worklist WorkRefs WorkLabels.
 Import ListNotations.
 
 (* PARTIAL: every target of a generated jump / case of a script is a registered chunk label: the renderer emits the
@@ -31,3 +31,14 @@ Theorem generated_targets_resolve :
   forall c, In c (finals w) -> forall d, In d (targets c) -> d = (-1)%Z \/ exists c', In c' (finals w) /\ cid c' = d.
 Proof. exact WorkRefs.generated_targets_resolve. Qed.
 Print Assumptions generated_targets_resolve.
+
+
+(* ---------- the author's labels are still there, exactly once ---------- *)
+(* The labels carried by the chunks of the final graph (each chunk of the graph is rendered by render_chunks, whose statement
+   printer prints every statement exactly once: chunk_statements_printed_once) are, as a multiset, exactly the labels the
+   author wrote anywhere in the body - inside loops, switch cases, after a break, in unreachable code. *)
+Theorem author_labels_conserved :
+  forall body w, emit_graph body = Ok w -> src_ok body ->
+  Permutation.Permutation (chunk_labels (finals w)) (dlabs body).
+Proof. exact WorkLabels.chunk_labels_are_source_labels. Qed.
+Print Assumptions author_labels_conserved.
